@@ -36,12 +36,15 @@ LayoutOf(ver) == LET vn == VerNum(ver) IN
 LayoutTab == [ver \in VerSet |-> LayoutOf(ver)]
 
 \* a point of S given as a tuple of cardinalities indexed like Dims
-M2Case(tag, cards, ver, kf, floats) ==
-  [ kind |-> "m2", slice |-> tag, ver |-> ver, vn |-> VerNum(ver), kf |-> kf, floats |-> floats,
+\* string lengths (model name, texture file names -- the two strings of the object model): -1 = short default / 300
+StrLens == {0, 1, 260, 261, 1024}
+M2CaseS(tag, cards, ver, kf, floats, nlen, tlen) ==
+  [ kind |-> "m2", slice |-> tag, namelen |-> nlen, texlen |-> tlen, ver |-> ver, vn |-> VerNum(ver), kf |-> kf, floats |-> floats,
     card |-> [sec \in M2Secs |-> cards[DimOf(sec)]],
     convs |-> Versions,
     hsize |-> LayoutTab[ver].hsize, hdrpos |-> LayoutTab[ver].hdrpos, elem |-> LayoutTab[ver].elem,
     order |-> M2Order ]
+M2Case(tag, cards, ver, kf, floats) == M2CaseS(tag, cards, ver, kf, floats, -1, -1)
 
 AllOf(c) == [j \in 1..ND |-> c]
 Single(d, c) == [j \in 1..ND |-> IF j = d THEN c ELSE 0]
@@ -57,9 +60,16 @@ PairIdx == {<<d1, d2>> \in (1..ND) \X (1..ND) : d1 < d2}
 Pairs == IF Thorough
          THEN { M2Case("pair", Pair(p[1], p[2], c1, c2), ver, TRUE, "normal") : p \in PairIdx, c1 \in {1, 3}, c2 \in {1, 3}, ver \in VerSet }
          ELSE { M2Case("pair", Pair(p[1], p[2], 3, 3), VerAt(Seed + p[1] * 7 + p[2]), TRUE, "normal") : p \in PairIdx }
+\* deterministic slice, the same for every seed: every pair of lengths for (model name, texture names) with the name,
+\* three textures and one vertex populated; the version rotates with the pair, the boundary pairs run in all versions
+StrShape == [j \in 1..ND |-> IF Dims[j] \in {"name", "vertices"} THEN 1 ELSE IF Dims[j] = "textures" THEN 3 ELSE 0]
+Strings == { M2CaseS("strings", StrShape, VerAt(nl + tl), TRUE, "normal", nl, tl) : nl \in StrLens, tl \in StrLens }
+           \cup { M2CaseS("strings", StrShape, ver, TRUE, "normal", ln, ln) : ln \in {260, 261, 1024}, ver \in VerSet }
 NDraws == IF Thorough THEN 3000 ELSE 120
-Draw(q) == M2Case("random", [j \in 1..ND |-> Cards[(Rnd(q, j, 1) % 3) + 1]], VerAt(Rnd(q, 0, 2)),
-                  Rnd(q, 0, 3) % 4 # 0, IF Rnd(q, 0, 4) % 3 = 0 THEN "extreme" ELSE "normal")
+LenSeq == <<-1, 0, 1, 260, 261, 1024, -1, -1>>
+Draw(q) == M2CaseS("random", [j \in 1..ND |-> Cards[(Rnd(q, j, 1) % 3) + 1]], VerAt(Rnd(q, 0, 2)),
+                   Rnd(q, 0, 3) % 4 # 0, IF Rnd(q, 0, 4) % 3 = 0 THEN "extreme" ELSE "normal",
+                   LenSeq[(Rnd(q, 0, 5) % 8) + 1], LenSeq[(Rnd(q, 0, 6) % 8) + 1])
 Draws == { Draw(q) : q \in 1..NDraws }
 
 \* ---- skin files: layout x cardinality of the five arrays (full product 2 * 3^5 = 486 in thorough) --------
@@ -85,7 +95,7 @@ Anims == { [ kind |-> "anim", slice |-> "anim", format |-> fm, nsec |-> ns, nbon
              hsize |-> 20 + 12 * ns, entrypos |-> [j \in 1..ns |-> 20 + 12 * (j - 1)] ] :
              fm \in {"modern", "legacy"}, ns \in {0, 1, 3}, nb \in {0, 1, 3}, dt \in BOOLEAN }
 
-Cases == SetToSeq(Uniform) \o SetToSeq(Singles) \o SetToSeq(Pairs) \o SetToSeq(Draws) \o SetToSeq(Skins) \o SetToSeq(Anims)
+Cases == SetToSeq(Uniform) \o SetToSeq(Strings) \o SetToSeq(Singles) \o SetToSeq(Pairs) \o SetToSeq(Draws) \o SetToSeq(Skins) \o SetToSeq(Anims)
 ASSUME ndJsonSerialize(IOEnv.CASES, Cases)
 ASSUME PrintT(<<"GENERATED", Len(Cases), Cardinality(Uniform), Cardinality(Singles), Cardinality(Pairs), Cardinality(Draws), Cardinality(Skins), Cardinality(Anims)>>)
 
